@@ -16,8 +16,8 @@ def plans(tier):
         ("passive-w2", pc.consts(S, win=2, thr=3, outcomes=("ok", "fail"))),
         ("mark4", pc.consts(S, N=4, N0=4, weight="W2101", win=1, passive=False, mark=True, outcomes=("ok",))),
         ("hold", pc.consts(S, win=1, passive=False, mark=True, maxhold=1, outcomes=("ok", "hold"))),
-        ("active", pc.consts(S, win=2, passive=True, thr=2, active=True, outcomes=("ok", "fail"))),
-        ("admin", pc.consts(S, N=4, N0=2, weight="W2101", win=1, passive=False, mark=True, admin=True, outcomes=("ok",))),
+        ("active", pc.consts(S, win=1, passive=True, thr=2, active=True, outcomes=("ok", "fail"))),
+        ("admin", pc.consts(["round_robin", "least_connections", "ip_hash"], N=3, N0=2, weight="W321", win=1, passive=False, mark=True, admin=True, clients=(1,), outcomes=("ok",))),
     ]
 
 
